@@ -348,10 +348,14 @@ def compare(prog_ast, graph):
 
 def lower(prog, ast):
     """interpret stmt() on the token stream of `ast`; -> ('ok', graph) | ('error', message)"""
-    fn = prog.require_func('stmt', 'stmt.c')
     toks = []
     tokens(ast, toks)
-    toks.append(('TEOF', None))
+    return lower_tokens(prog, toks)
+
+
+def lower_tokens(prog, toks):
+    fn = prog.require_func('stmt', 'stmt.c')
+    toks = list(toks) + [('TEOF', None)]
 
     def runner(it):
         it.MAX_STEPS = 400000
@@ -484,6 +488,194 @@ def lower(prog, ast):
     if run.outcome == 'return': return 'ok', run.value
     if run.outcome == 'unsupported': return 'unsupported', str(run.detail)
     return run.outcome, str(run.detail)
+
+
+# ------------------------------------------------------------------ reference parser (C11 6.8 syntax + constraints) over the token alphabet
+
+class Reject(Exception): pass
+
+
+class RefParser:
+    def __init__(self, toks):
+        self.t = toks; self.i = 0; self.n = 0
+        self.labels = set(); self.gotos = []
+
+    def peek(self, k=0):
+        return self.t[self.i + k][0] if self.i + k < len(self.t) else 'TEOF'
+
+    def eat(self, kind):
+        if self.peek() != kind: raise Reject('expected %s, found %s at token %d' % (kind, self.peek(), self.i))
+        v = self.t[self.i][1]; self.i += 1; return v
+
+    def uid(self):
+        self.n += 1; return self.n
+
+    def program(self):
+        s = self.stmt(False, None)
+        if self.peek() != 'TEOF': raise Reject('trailing tokens')
+        for g in self.gotos:
+            if g not in self.labels: raise Reject('label used but not defined')
+        return s
+
+    def label(self, loop, sw):
+        k = self.peek()
+        if k == 'TCASE':
+            if sw is None: raise Reject('case outside switch')
+            self.eat('TCASE'); v = self.eat('ICE'); self.eat('TCOLON')
+            if v in sw['cases']: raise Reject('duplicate case')
+            sw['cases'].add(v)
+            return ('case', v, self.uid())
+        if k == 'TDEFAULT':
+            if sw is None: raise Reject('default outside switch')
+            self.eat('TDEFAULT'); self.eat('TCOLON')
+            if sw['default']: raise Reject('multiple default')
+            sw['default'] = True
+            return ('default', None, self.uid())
+        if k == 'TIDENT' and self.peek(1) == 'TCOLON':
+            name = self.eat('TIDENT'); self.eat('TCOLON')
+            if name in self.labels: raise Reject('duplicate label')
+            self.labels.add(name)
+            return ('label', name)
+        return None
+
+    def lstmt(self, loop, sw):
+        """labels* statement, as a nested tree"""
+        labs = []
+        while True:
+            l = self.label(loop, sw)
+            if l is None: break
+            labs.append(l)
+        s = self.stmt(loop, sw)
+        items = [x for x in labs if x[0] != 'label']
+        names = [x for x in labs if x[0] == 'label']
+        if items:
+            # case/default labels in front of a sub-statement: keep order label..., statement
+            out = ('block', [x if x[0] != 'label' else None for x in labs])
+            seq = []
+            for x in labs:
+                if x[0] == 'label': seq.append(('label', x[1], ('empty',)))
+                else: seq.append(x)
+            seq.append(s)
+            return ('block', seq)
+        for x in reversed(names): s = ('label', x[1], s)
+        return s
+
+    def stmt(self, loop, sw):
+        k = self.peek()
+        if k == 'TLBRACE':
+            self.eat('TLBRACE'); items = []
+            while self.peek() != 'TRBRACE':
+                if self.peek() == 'TEOF': raise Reject('unterminated block')
+                l = self.label(loop, sw)
+                if l is not None:
+                    items.append(l if l[0] != 'label' else ('label', l[1], ('empty',)))
+                    continue
+                items.append(self.stmt(loop, sw))
+            self.eat('TRBRACE')
+            return ('block', items)
+        if k == 'TSEMICOLON': self.eat(k); return ('empty',)
+        if k == 'EXPR':
+            e = self.eat('EXPR'); self.eat('TSEMICOLON'); return ('expr', e)
+        if k == 'TIF':
+            self.eat(k); self.eat('TLPAREN'); c = self.eat('EXPR'); self.eat('TRPAREN')
+            th = self.lstmt(loop, sw); el = None
+            if self.peek() == 'TELSE':
+                self.eat('TELSE'); el = self.lstmt(loop, sw)
+            return ('if', c, th, el)
+        if k == 'TSWITCH':
+            self.eat(k); self.eat('TLPAREN'); v = self.eat('EXPR'); self.eat('TRPAREN')
+            return ('switch', v, self.lstmt(loop, {'cases': set(), 'default': False}))
+        if k == 'TWHILE':
+            self.eat(k); self.eat('TLPAREN'); c = self.eat('EXPR'); self.eat('TRPAREN')
+            return ('while', c, self.lstmt(True, sw))
+        if k == 'TDO':
+            self.eat(k); b = self.lstmt(True, sw)
+            self.eat('TWHILE'); self.eat('TLPAREN'); c = self.eat('EXPR'); self.eat('TRPAREN'); self.eat('TSEMICOLON')
+            return ('do', b, c)
+        if k == 'TFOR':
+            self.eat(k); self.eat('TLPAREN')
+            i_ = self.eat('EXPR') if self.peek() == 'EXPR' else None
+            self.eat('TSEMICOLON')
+            c = self.eat('EXPR') if self.peek() == 'EXPR' else None
+            self.eat('TSEMICOLON')
+            u = self.eat('EXPR') if self.peek() == 'EXPR' else None
+            self.eat('TRPAREN')
+            return ('for', i_, c, u, self.lstmt(True, sw))
+        if k == 'TGOTO':
+            self.eat(k); name = self.eat('TIDENT'); self.eat('TSEMICOLON'); self.gotos.append(name)
+            return ('goto', name)
+        if k == 'TCONTINUE':
+            if not loop: raise Reject('continue outside loop')
+            self.eat(k); self.eat('TSEMICOLON'); return ('continue',)
+        if k == 'TBREAK':
+            if not loop and sw is None: raise Reject('break outside loop or switch')
+            self.eat(k); self.eat('TSEMICOLON'); return ('break',)
+        if k == 'TRETURN':
+            self.eat(k); e = self.eat('EXPR'); self.eat('TSEMICOLON'); return ('return', e)
+        raise Reject('unexpected %s at token %d' % (k, self.i))
+
+
+def toktext(toks):
+    M = {'TLBRACE': '{', 'TRBRACE': '}', 'TLPAREN': '(', 'TRPAREN': ')', 'TSEMICOLON': ';', 'TCOLON': ':', 'TIF': 'if', 'TELSE': 'else', 'TWHILE': 'while', 'TDO': 'do', 'TFOR': 'for',
+         'TSWITCH': 'switch', 'TCASE': 'case', 'TDEFAULT': 'default', 'TBREAK': 'break', 'TCONTINUE': 'continue', 'TRETURN': 'return', 'TGOTO': 'goto'}
+    return ' '.join(M.get(k, str(v)) for k, v in toks)
+
+
+def rule_syntax(chk, prog, tier):
+    r = chk.rule('C10.f', 'statement syntax: every token sequence obtained from a valid statement by deleting, duplicating or swapping one token is rejected exactly when C11 6.8 (syntax and the placement constraints of case/default/break/continue/labels) rejects it, and otherwise lowered to blocks that are trace-equivalent to the statement the grammar assigns to it',
+                 floor=1500, oracle='C11 6.8.1-6.8.6 (reference parser props/c01f.py:RefParser)')
+    N = 90 if tier == 'quick' else 400
+    rnd = random.Random(99)
+    bases = []; seen = set()
+    while len(bases) < N:
+        g = Gen(rnd)
+        ast = g.program(rnd.choice([1, 2, 2, 3]))
+        t = text(ast)
+        if t in seen or len(t) > 160: continue
+        seen.add(t)
+        toks = []; tokens(ast, toks)
+        bases.append(toks)
+    variants = []; vseen = set()
+    for toks in bases:
+        for i in range(len(toks)):
+            cands = [toks[:i] + toks[i + 1:], toks[:i] + [toks[i]] + toks[i:]]
+            if i + 1 < len(toks): cands.append(toks[:i] + [toks[i + 1], toks[i]] + toks[i + 2:])
+            for v in cands:
+                key = toktext(v)
+                if key in vseen: continue
+                vseen.add(key); variants.append(v)
+    if tier == 'quick' and len(variants) > 4000:
+        variants = rnd.sample(variants, 4000)
+    chunks = [variants[i::48] for i in range(48)]
+    def work(chunk):
+        out = []
+        for toks in chunk:
+            try:
+                ast = RefParser(toks).program(); want = 'ok'
+            except Reject as x:
+                ast = None; want = 'reject:%s' % x
+            st, g = lower_tokens(prog, toks)
+            if st == 'unsupported':
+                out.append((toktext(toks), 'unsupported', g)); continue
+            if want != 'ok':
+                out.append((toktext(toks), 'match' if st != 'ok' else 'accepts', want)); continue
+            if st != 'ok':
+                out.append((toktext(toks), 'rejects', '%s %s' % (st, g))); continue
+            diff, npaths = compare(ast, g)
+            out.append((toktext(toks), 'match' if diff is None else 'differs', diff))
+        return out
+    nrej = 0
+    for res in par.pmap(work, chunks):
+        for t, verdict, det in res:
+            key = 'syntax:' + t
+            if verdict == 'unsupported':
+                raise AnalysisBroken('stmt %s: %s' % (t, det))
+            if verdict == 'match' and isinstance(det, str) and det.startswith('reject'): nrej += 1
+            msg = {'accepts': 'C11 rejects this token sequence (%s) but cproc accepts it' % det, 'rejects': 'valid statement rejected: %s' % det,
+                   'differs': 'accepted, but lowered differently from the statement the grammar assigns: %s' % det}.get(verdict, '')
+            r.instance(verdict == 'match', key, 'stmt.c:stmt', msg)
+    r.samples.append('%d token sequences from %d base statements; %d must be rejected' % (len(variants), len(bases), nrej))
+    r.exhaustive = False
 
 
 def static_errors(ast):
